@@ -116,6 +116,13 @@ func (a *TransferAuthorization) ValidateBasic() error {
 			return errorsmod.Wrap(ibcerrors.ErrInvalidCoins, "spend limit cannot be nil")
 		}
 
+		for _, coin := range allocation.SpendLimit {
+			// sdk.Coins.Validate dereferences the amounts of a multi coin list without checking that they are set
+			if coin.Amount.IsNil() {
+				return errorsmod.Wrapf(ibcerrors.ErrInvalidCoins, "invalid spend limit: amount of %s is not set", coin.Denom)
+			}
+		}
+
 		if err := allocation.SpendLimit.Validate(); err != nil {
 			return errorsmod.Wrapf(ibcerrors.ErrInvalidCoins, "invalid spend limit: %s", err.Error())
 		}
